@@ -170,3 +170,45 @@ mod tests {
         assert!(glob_match(b"a**", b"a"));
     }
 }
+
+/// Patterns built from whole glob tokens (a character-by-character enumeration needs five symbols for the smallest
+/// range class, beyond the quick bound: a seeded half-open range `[a-c)` went unnoticed): every sequence of 1..=max
+/// tokens; the texts are all strings of length 1..=3 over {a, b, c, -, ]} (the empty text is left out: the reference
+/// implementation's loop does not run for it and answers `false` even for `*`, a quirk the property does not ask for).
+pub fn token_patterns(max_tokens: usize) -> Vec<Vec<u8>> {
+    let tokens: [&[u8]; 20] = [b"a", b"b", b"c", b"*", b"?", b"[ab]", b"[a-c]", b"[^a-c]", b"[a-a]", b"[c-a]", b"[b-c]", b"[^b]", b"\\a", b"\\*", b"[a-]", b"[-c]", b"[]a]", b"-", b"]", b"[a-bc]"];
+    let mut out: Vec<Vec<u8>> = Vec::new();
+    let mut level: Vec<Vec<u8>> = vec![vec![]];
+    for _ in 0..max_tokens {
+        let mut next = Vec::new();
+        for p in level.iter() {
+            for t in tokens.iter() {
+                let mut q = p.clone();
+                q.extend_from_slice(t);
+                next.push(q);
+            }
+        }
+        out.extend(next.iter().cloned());
+        level = next;
+    }
+    out
+}
+
+pub fn token_texts() -> Vec<Vec<u8>> {
+    let alpha: &[u8] = b"abc-]";
+    let mut out: Vec<Vec<u8>> = Vec::new();
+    let mut level: Vec<Vec<u8>> = vec![vec![]];
+    for _ in 0..3 {
+        let mut next = Vec::new();
+        for p in level.iter() {
+            for c in alpha.iter() {
+                let mut q = p.clone();
+                q.push(*c);
+                next.push(q);
+            }
+        }
+        out.extend(next.iter().cloned());
+        level = next;
+    }
+    out
+}
